@@ -153,6 +153,13 @@ func scenariosC04(rng *rand.Rand, thorough bool) []Scenario {
 			Script: []Event{sleep(200)},
 			Peers:  []Behaviour{early, skewed, skewed, skewed, skewed, {Kind: "honest", SkewMin: 60}}})
 	}
+	// --- queue pressure: one peer floods junk block announcements while the honest sync peer announces a block ---
+	add(Scenario{Name: "flood-inv-then-honest-block", Len: L(), Barrier: true, NoRedial: true, Deadline: 6 * time.Second,
+		Script: []Event{sync, {Kind: "flood", A: 1, B: 4000}, {Kind: "flood", A: 2, B: 4000}, {Kind: "flood", A: 3, B: 4000},
+			{Kind: "flood", A: 4, B: 4000}, {Kind: "flood", A: 5, B: 4000}, {Kind: "flood", A: 6, B: 4000},
+			sleep(100), grow(1), {Kind: "drain", A: 1}, {Kind: "drain", A: 6}},
+		Peers: []Behaviour{honest(), {Kind: "floodInv"}, {Kind: "floodInv"}, {Kind: "floodInv"}, {Kind: "floodInv"},
+			{Kind: "floodInv"}, {Kind: "floodInv"}}})
 	return out
 }
 
